@@ -252,10 +252,13 @@ _mtbl_sorter_write_chunk(struct entry_batch *b)
 	entry_vec_destroy(&b->entries);
 	free(b);
 
-	if (res != mtbl_res_success)
-		return (NULL);
+	struct mtbl_reader *r = NULL;
+	if (res == mtbl_res_success)
+		r = mtbl_reader_init_fd(fd, NULL);
+	/* the writer used its own dup of fd and the reader has mapped the file */
+	close(fd);
 
-	return (mtbl_reader_init_fd(fd, NULL));
+	return (r);
 }
 
 mtbl_res
